@@ -62,7 +62,7 @@ package clickhouse_planner
 // Rows of metrics_15s carry the start of their 15-second bucket. The read must
 // cover the requested window [From, To): every bucket that intersects it, and
 // be widened by less than one bucket on either side.
-//@ func (*Metrics15ShortcutPlanner).GetQuery [C13]
+//@ func (*Metrics15ShortcutPlanner).GetQuery [C08,C13]
 //@   requires ctx.From.UnixNano() >= 0 && ctx.To.UnixNano() >= ctx.From.UnixNano()
 //@   modifies whereArgs
 //@   check three-clauses: len(whereArgs) == 3 && isIntCmp(whereArgs[0]) && isIntCmp(whereArgs[1])
@@ -396,3 +396,13 @@ package clickhouse_planner
 //@   at fmt.Sprintf$ request-text-is-an-operand-never-the-format: arg0 == "bitShiftLeft(%s, %d)" || arg0 == "groupBitOr(%s)"
 //@   loop 1:
 //@     modifies everything
+
+// Labels extracted by `| json x="path"` / `| regexp` are written OVER the stored stream
+// labels: in ClickHouse's mapUpdate(a, b) the second map wins on a key collision, so the
+// stored labels are the first operand and the extraction the second.
+//@ func (*sqlMapUpdate).String [C07]
+//@   modifies nothing
+//@   ensures second-map-wins-and-is-the-extraction: result1 == nil ==> result0 == "mapUpdate(" + sqlText(s.m1, ctx) + ", " + sqlText(s.m2, ctx) + ")"
+//@ func NewSqlBitSetAnd [C17]
+//@   modifies nothing
+//@   ensures fresh(result) && len(result.clauses) == len(clauses)
